@@ -47,6 +47,8 @@ func c11(w *core.World, r *core.Report) {
 	}
 	r.Rule("R10.2", "every key a command's slot verdict covers is hashed itself: FilterCmdKey keeps a key only after the slot rule (and the prefix rule) judged that key (shared with C10)", 3)
 	ruleFilterCmdKeyKeep(w, r)
+	r.Rule("R18.10", "on a cluster target a unit's slot is the slot of its keys: the forced-slot mode is for non-cluster targets only (shared with C18)", 1)
+	ruleSlotModeByTargetKind(w, r)
 	r.Rule("R18.9", "bookkeeping keys are placed by a slot tag: the tag table is read only after it was built (shared with C18)", 1)
 	ruleSlotTagTablePublished(w, r)
 }
